@@ -2,3 +2,26 @@
 
 /// A block filter module
 pub mod filter;
+
+/// Verification hooks (compiled only with `--cfg ckb_verif`).
+#[cfg(ckb_verif)]
+pub mod verif {
+    use std::sync::OnceLock;
+
+    type Callback = Box<dyn Fn(&'static str) + Send + Sync>;
+
+    static CALLBACK: OnceLock<Callback> = OnceLock::new();
+
+    /// Install the process-wide callback; returns false if one is already installed.
+    pub fn install(callback: Callback) -> bool {
+        CALLBACK.set(callback).is_ok()
+    }
+
+    /// Report that the current thread reached the named point.
+    #[inline]
+    pub fn point(name: &'static str) {
+        if let Some(callback) = CALLBACK.get() {
+            callback(name)
+        }
+    }
+}
